@@ -35,6 +35,11 @@ CHECKS = {
     technique="TLA+ spec RpycTeardown (connection life cycle at public-call granularity with read/write faults) model-checked by TLC; fault enumeration on the real Connection+Channel+SocketStream stack over scripted sockets (failure at every recv/send call, fragmented runs for mid-packet positions, all close orders) with every run's event log trace-validated by TLC and judged at each public-call boundary",
     text="TLC exhausts issue/serve/close/wait with socket read and write faults at any point and all orders of the two close() calls for hook-at-most-once, closed-implies-clean, no invented value, no hang; the same obligations are checked on the real stack for every single transport call position of four workloads (sync, async, nested callbacks, references both ways), and the recorded event logs are accepted by the spec",
     note="one fault per run; poll() itself is not failed; sides single-threaded and serving while idle; a reply-send failure in a bare serve() may leave closed false until the next serve (reading note in DESIGN.md)"),
+ "C15": dict(
+    spec="RpycAsync", design="5/C15",
+    technique="TLA+ spec RpycAsync (one AsyncResult in discrete virtual time: reply, unrelated traffic, expiry, queries, callbacks, wait) model-checked by TLC; TLC -simulate behaviours replayed on a real AsyncResult/Connection under a virtual clock with the program's observation log compared with the specification's; sync_request and timed() driven through the same behaviours",
+    text="TLC exhausts all orderings within T=3 of reply arrival, unrelated traffic, expiry and the program's operations for finality, callbacks-once-in-order and timeout timing; each simulated behaviour is a test of the real AsyncResult: results of ready/error/expired/wait and the instant of every return or raise must equal the specification's observation log",
+    note="discrete virtual time (1 tick = 1 s); 'reply came first' = processed before the expiry instant; bounded behaviours (depth <= 22)"),
 }
 NA = {}
 
